@@ -132,6 +132,9 @@ func (w *Worker) soloResult(fx *Fixture, c call, o *Outcome) *callResult {
 var c10Feat = GenFeat{Commit: true, Lookup: true, Range: true, Hint: true, Wide: true, Bits: true, ScaledBool: true, MaxOps: 10, MinOps: 2}
 
 func c10Run(w *Worker, tape *simrt.Tape) *Outcome {
+	if w.param("mode", "") == "registry" {
+		return c10Registry(w, tape)
+	}
 	o := &Outcome{}
 	ch := func(n int) int { return tape.Choose(simrt.SWorkload, n) }
 	curves := w.curves()
